@@ -1,8 +1,82 @@
 import AFV.Driver.Proto
+import AFV.Driver.NestJson
+import AFV.Driver.LExprJson
+import AFV.Model.NestKeys
 namespace AFV.Driver.C07
-open Lean AFV.Proto
+open Lean AFV AFV.Proto AFV.Nest AFV.Driver.NestJson
 
-/-- Handler for property C07 requests (stub: not implemented yet). -/
-def handle (_req : Json) : Json := err "unimplemented"
+def tnode? (j : Json) : Option TNode := do
+  let a ← getArr? j
+  if a.size == 0 then none else
+  match getStr? a[0]! with
+  | some "S" => if a.size != 4 then none else do pure (.storage (← getNat? a[1]!) (← natList? a[2]!) (← getBool? a[3]!))
+  | some "T" => if a.size != 4 then none else do pure (.toll (← getNat? a[1]!) (← natList? a[2]!) (← getBool? a[3]!))
+  | some "LC" => if a.size != 3 then none else do pure (.loopC (← getNat? a[1]!) (← getNat? a[2]!))
+  | some "LS" => if a.size != 3 then none else do pure (.loopS (← getNat? a[1]!) (← getNat? a[2]!))
+  | some "C" => if a.size != 1 then none else pure .compute
+  | _ => none
+
+def fkey? (j : Json) : Option FKey := do
+  let a ← getArr? j
+  if a.size == 0 then none else
+  let n (i : Nat) : Option Nat := (a[i]?).bind getNat?
+  match getStr? a[0]! with
+  | some "actionR" => do pure (.actionR (← n 1) (← n 2))
+  | some "actionW" => do pure (.actionW (← n 1) (← n 2))
+  | some "computes" => pure .computes
+  | some "energyR" => do pure (.energyR (← n 1) (← n 2))
+  | some "energyW" => do pure (.energyW (← n 1) (← n 2))
+  | some "computeEnergy" => pure .computeEnergy
+  | some "leak" => do pure (.leak (← n 1))
+  | some "computeLeak" => pure .computeLeak
+  | some "latency" => do pure (.latency (← n 1))
+  | some "computeLatency" => pure .computeLatency
+  | some "totalLatency" => pure .totalLatency
+  | some "dynamicEnergy" => pure .dynamicEnergy
+  | some "leakEnergy" => pure .leakEnergy
+  | some "usage" => do pure (.usage (← n 1) (← n 2))
+  | some "reservation" => do pure (.reservation (← n 1) (← n 2))
+  | some "memUsage" => do pure (.memUsage (← n 1))
+  | _ => none
+
+/-- ops:
+  {"op":"eval", …}   as C05 (concrete mapping)
+  {"op":"formulas","arch":…,"workload":…,"template":[tnode,…],"formulas":[[key, lexpr],…]}
+       → [true|false|null,…]   is the exported formula `LExpr.equiv` to the model's formula? (null: the model has no such entry)
+  {"op":"evalpoly","arch":…,"workload":…,"template":…,"point":[[p,q],…],"keys":[key,…]}
+       → [[p,q]|null,…]        values of the model's symbolic formulas at an assignment of the symbols -/
+def handle (req : Json) : Json :=
+  match (field? req "op").bind getStr? with
+  | some "eval" => evalReply req
+  | some "formulas" =>
+    match (field? req "arch").bind arch?, (field? req "workload").bind workload?, (field? req "template").bind getArr?,
+          (field? req "formulas").bind getArr? with
+    | some arch, some (wq, _), some tj, some fj =>
+      match tj.toList.mapM tnode?, fj.toList.mapM (fun p => do
+          let a ← getArr? p
+          if a.size != 2 then none else
+          pure ((← fkey? a[0]!), (← lexprOfJson? a[1]!))) with
+      | some tpl, some fs =>
+        match analyticPoly arch wq tpl with
+        | none => err "model-fails"
+        | some r => Json.arr (fs.map (fun (k, g) => match r.get k with
+            | some ref => Json.bool (LExpr.equiv g ref)
+            | none => Json.null)).toArray
+      | _, _ => err "malformed"
+    | _, _, _, _ => err "malformed"
+  | some "evalpoly" =>
+    match (field? req "arch").bind arch?, (field? req "workload").bind workload?, (field? req "template").bind getArr?,
+          (field? req "point").bind ratList?, (field? req "keys").bind getArr? with
+    | some arch, some (wq, _), some tj, some pt, some kj =>
+      match tj.toList.mapM tnode?, kj.toList.mapM fkey? with
+      | some tpl, some ks =>
+        match analyticPoly arch wq tpl with
+        | none => err "model-fails"
+        | some r => Json.arr (ks.map (fun k => match r.get k with
+            | some e => ratToJson (LExpr.eval (LExpr.assign pt) e)
+            | none => Json.null)).toArray
+      | _, _ => err "malformed"
+    | _, _, _, _, _ => err "malformed"
+  | _ => err "bad-op"
 
 end AFV.Driver.C07
